@@ -52,6 +52,10 @@ def cond_for(rng, kind, child_keys):
                     leaves.append(Value.allowed_keys(*ks))
             else:
                 leaves.append(Value.required_keys(*req))
+    if leaves and rng.random() < 0.12:
+        from valida import Value as _V
+        twin = rng.choice([_V.in_([1, 2]), _V.is_instance(t), _V.in_([1, 2])])
+        leaves += [twin, rng.choice([twin, _V.in_([1, 2]), _V.is_instance(t)])]      # equal type-like conditions, twice
     if not leaves:
         leaves.append(Value.truthy())
     rng.shuffle(leaves)
@@ -155,6 +159,7 @@ def tree_event(i, schema, from_idx):
         par = it["parent"]
         import valida.datapath as _dp
         nodes.append({"ri": ri, "parent": par, "plen": len(it["path_str"]), "key": key,
+                      "ntype": len(it.get("type") or []), "nkeytype": len(it.get("key_type") or []),
                       "path": [{"prim": not isinstance(x, _dp.ContainerValue),
                                 "v": enc_val(x) if not isinstance(x, _dp.ContainerValue) else V("none")} for x in pth],
                       "has_required": "required" in it, "required": bool(it.get("required")),
